@@ -19,7 +19,7 @@ type C16Case struct {
 	Via    string `json:"via"` // result | store | store-missing | both
 }
 
-var destForms = []string{"same", "any", "anyptr", "tagged", "loose", "partial", "withslice", "int", "float64", "string", "bool",
+var destForms = []string{"same", "elem", "any", "anyptr", "tagged", "loose", "partial", "withslice", "int", "float64", "string", "bool",
 	"strslice", "intslice", "anyslice", "mapstrany", "mapstrint", "ptrptr-tagged", "ptr-same", "nilptr", "nonptr", "nil", "taggedslice", "array2", "iface-err"}
 
 // buildDest returns a fresh destination for the source value v. Called twice it gives
@@ -31,6 +31,12 @@ func buildDest(form string, v any, prepop bool) any {
 			return new(any)
 		}
 		return reflect.New(reflect.TypeOf(v)).Interface()
+	case "elem": // a *T value bound into a T destination (pointer to the pointee type)
+		if v == nil || reflect.TypeOf(v).Kind() != reflect.Ptr {
+			return new(Loose)
+		}
+		d := reflect.New(reflect.TypeOf(v).Elem())
+		return d.Interface()
 	case "ptr-same": // **T for a T value: element type differs from the value's type
 		if v == nil {
 			return new(*int)
@@ -256,6 +262,51 @@ func genC16(rt *rapid.T) C16Case {
 	return c
 }
 
+// C16Seq: several binds in a row in one process and on one store - state must not leak from
+// one Bind call into the next (a failed bind must not poison later ones).
+type C16Seq struct {
+	Steps []C16Case `json:"steps"`
+}
+
+func checkC16Seq(t *testing.T, s C16Seq) Verdict {
+	nontrivial := false
+	failedBefore := false
+	for i, c := range s.Steps {
+		v := checkC16(t, c)
+		if v.Violation != "" {
+			v.Violation = fmt.Sprintf("step %d of %d (earlier failed binds: %v): %s", i, len(s.Steps), failedBefore, v.Violation)
+			v.Fingerprint += ":seq"
+			return v
+		}
+		for _, cl := range v.Classes {
+			if cl == "error-case" {
+				if i < len(s.Steps)-1 {
+					nontrivial = true
+				}
+				failedBefore = true
+			}
+		}
+	}
+	return ok(nontrivial, "sequence")
+}
+
+func genC16Seq(rt *rapid.T) C16Seq {
+	n := rapid.IntRange(2, 6).Draw(rt, "nsteps")
+	var s C16Seq
+	for i := 0; i < n; i++ {
+		c := genC16(rt)
+		if uniform(rt, 2, "marshalable") == 0 {
+			// a value that marshals fine, bound into a destination that cannot take it (decode
+			// error) or into one that can
+			c.Src = Recipe{K: []string{"string", "Tagged", "map", "intslice", "Loose"}[uniform(rt, 5, "sk")], S: "txt", N: "4", Keys: []string{"id", "name"},
+				Elems: []Recipe{numRecipe("int", "1"), {K: "string", S: "n"}}}
+			c.Dest = []string{"int", "tagged", "loose", "mapstrany", "strslice", "any", "string"}[uniform(rt, 7, "dk")]
+		}
+		s.Steps = append(s.Steps, c)
+	}
+	return s
+}
+
 func TestC16(t *testing.T) {
 	r := newRun(t, "C16")
 	defer r.finish()
@@ -282,6 +333,7 @@ func TestC16(t *testing.T) {
 	}
 	r.exhaustive(fmt.Sprintf("%d hostile source values x %d destination forms (own type, **T, *any empty/prepopulated/holding a pointer, compatible/incompatible structs, scalars, slices, maps, typed nil pointer, non-pointer, nil) x store and result, plus the missing-key case", len(hv), len(destForms)))
 	rapidPart(r, "rand", r.pick(6000, 100000), genC16, checkC16)
+	rapidPart(r, "sequences", r.pick(3000, 40000), genC16Seq, checkC16Seq)
 }
 
 func FuzzC16(f *testing.F) {
@@ -297,4 +349,7 @@ func FuzzC16(f *testing.F) {
 	}))
 }
 
-func init() { registerReplay("C16", checkC16) }
+func init() {
+	registerReplay("C16", checkC16)
+	registerReplaySub("C16", "sequences", checkC16Seq)
+}
